@@ -266,6 +266,11 @@ Loop:
 			}
 		}
 	}
+	// Workers also exit (closing entries) upon cancellation,
+	// so a closed channel alone does not mean all rows were collected.
+	if err := ctx.Err(); err != nil {
+		return err
+	}
 	sort.Sort(EntriesByIndex(sortedEntries))
 	v.Dim = dim
 	v.Entries = sortedEntries
